@@ -70,7 +70,7 @@ def make_labels(kind, lt):
     return np.array(lt, dtype=str)
 
 
-def check_point(res, kind, lt, sort, exname, chunks, method):
+def check_point(res, kind, lt, sort, exname, chunks, method, labels_dask=False, egkind="ndarray"):
     import dask.array as da
 
     n = len(lt)
@@ -80,18 +80,24 @@ def check_point(res, kind, lt, sort, exname, chunks, method):
     requested = EXPECTED[kind][exname]
     kw = dict(func="sum", sort=sort)
     if requested is not None:
-        kw["expected_groups"] = np.array(requested)
+        import pandas as pd
+
+        kw["expected_groups"] = np.array(requested) if egkind == "ndarray" else (pd.Index(requested) if egkind == "index" else list(requested))
         kw["fill_value"] = -1.0
     arr = V
+    by = labels
     if chunks is not None:
         arr = da.from_array(V, chunks=((2,), chunks))
         kw["method"] = method
-    out = e1.call_reduce(arr, labels, **kw)
+        if labels_dask:
+            by = da.from_array(labels, chunks=(chunks,))
+    out = e1.call_reduce(arr, by, **kw)
     res.evaluations += 1
     res.states += 1
     res.transitions += 1
-    case = dict(kind=kind, labels=list(lt), sort=sort, expected=exname, chunks=list(chunks) if chunks else None, method=method)
-    tags = dict(kind2=kind, sort=sort, expected=exname, chunked=chunks is not None, method=str(method))
+    case = dict(kind=kind, labels=list(lt), sort=sort, expected=exname, chunks=list(chunks) if chunks else None, method=method,
+                labels_dask=labels_dask, egkind=egkind)
+    tags = dict(kind2=kind, sort=sort, expected=exname, chunked=chunks is not None, method=str(method), labels_dask=labels_dask, egkind=egkind)
     size = n * 10 + (len(chunks) if chunks else 0)
     if chunks is not None and method == "blockwise":
         # the integer codes flox hands to its automatic rechunk: positions in the (sorted, if sort) requested labels,
@@ -186,6 +192,12 @@ def run_shard(shard):
                         check_point(res, kind, lt, sort, exname, ch, method)
                         if nontriv or "unsorted" in exname:
                             res.nontrivial += 1
+                    # chunked (dask) labels need expected_groups; given as ndarray / pandas Index / list
+                    if exname in ("unsorted", "unsorted+absent") and kind != "str" and len(ch) >= 2:
+                        for egkind in ("index", "list", "ndarray"):
+                            for method in (None, "map-reduce"):
+                                check_point(res, kind, lt, sort, exname, ch, method, labels_dask=True, egkind=egkind)
+                                res.nontrivial += 1
     res.sample(dict(kind=kind, labels=list(lts[len(lts) // 2]), sort=[True, False], expected_groups=list(EXPECTED[kind]),
                     data="element i carries 2**i"))
     return res
@@ -197,5 +209,6 @@ def replay(payload):
     res = Result()
     c = payload["case"]
     lt = tuple(unjson_float(c["labels"])) if c["kind"] == "float" else tuple(c["labels"])
-    check_point(res, c["kind"], lt, c["sort"], c["expected"], tuple(c["chunks"]) if c.get("chunks") else None, c.get("method"))
+    check_point(res, c["kind"], lt, c["sort"], c["expected"], tuple(c["chunks"]) if c.get("chunks") else None, c.get("method"),
+                labels_dask=c.get("labels_dask", False), egkind=c.get("egkind", "ndarray"))
     return res
